@@ -174,6 +174,7 @@ type result struct {
 	MsgFlows        int
 	Instantiated    int
 	Woken           int
+	Bursts          int
 }
 
 func runCase(d descriptor) *result {
@@ -185,7 +186,7 @@ func runCase(d descriptor) *result {
 		return r
 	}
 	if d.Perturb != 0 {
-		perturb.Install(d.Perturb, 50, map[string]bool{"processset.startall": true, "process.startwith": true, "tracer.send": true})
+		perturb.Install(d.Perturb, 50, map[string]bool{"processset.startall": true, "process.startwith": true, "tracer.send": true, "processset.trigger": true})
 		defer perturb.Remove()
 	}
 	tr := quiesce.Begin()
@@ -414,8 +415,80 @@ func runCase(d descriptor) *result {
 		r.History = append(r.History, "answer "+node)
 		return compare("after answering " + node)
 	}
+	// answerAll: every pending task is answered at the same time, from separate
+	// goroutines - throw events of several processes fire together. Only when
+	// the outcome cannot depend on the order: no catcher process is still on
+	// its way to its catch event (a throw that finds nobody listening is lost).
+	answerAll := func() *result {
+		pm := pendingModel()
+		if len(pm) < 2 {
+			return answer(0)
+		}
+		for _, i := range insts {
+			bp := bt.procs[i.proc]
+			if bp.spec.Kind != "catcher" || len(i.m.Pending) == 0 {
+				continue
+			}
+			armed := false
+			for _, a := range i.m.Armed() {
+				if a == bp.hook {
+					armed = true
+				}
+			}
+			fired := false
+			for _, f := range i.m.AllFlows {
+				if fl := bp.g.Flow(f); fl != nil && fl.Src == bp.hook {
+					fired = true
+				}
+			}
+			if !armed && !fired {
+				return answer(0)
+			}
+		}
+		type sel struct {
+			i   *inst
+			req *model.Req
+		}
+		var sels []sel
+		var wg sync.WaitGroup
+		var nodes []string
+		for _, x := range pm {
+			rq := x.i.m.Pending[x.idx]
+			node := rq.Node.ID
+			q := pendEngine[node]
+			if len(q) == 0 {
+				return fail("requests", "model pending "+node+" has no engine request", nil)
+			}
+			tt := q[0]
+			pendEngine[node] = q[1:]
+			sels = append(sels, sel{x.i, rq})
+			nodes = append(nodes, node)
+			wg.Add(1)
+			go func() { defer wg.Done(); tt.Do() }()
+		}
+		wg.Wait()
+		for _, sl := range sels {
+			for k, rq := range sl.i.m.Pending {
+				if rq == sl.req {
+					apply(sl.i, sl.i.m.Answer(k, model.Answer{Kind: model.AnsOK}))
+					break
+				}
+			}
+		}
+		if _, err := tr.Wait(0); err != nil {
+			r.Inconcl = err.Error()
+			return r
+		}
+		r.History = append(r.History, fmt.Sprintf("answer %v at the same time", nodes))
+		r.Bursts++
+		return compare(fmt.Sprintf("after answering %v at the same time", nodes))
+	}
 	for ai, a := range d.Actions {
 		switch a.Kind {
+		case "answerAll":
+			if res := answerAll(); res != nil {
+				return res
+			}
 		case "answer":
 			if res := answer(a.Arg); res != nil {
 				return res
@@ -492,6 +565,24 @@ func draw(rt *rapid.T) descriptor {
 	var d descriptor
 	d.Perturb = uint64(rapid.IntRange(0, 300).Draw(rt, "perturb"))
 	d.CallerTracer = rapid.IntRange(0, 2).Draw(rt, "callerTracer") == 0
+	if rapid.IntRange(0, 4).Draw(rt, "fanIn") == 0 {
+		// 2..4 processes throw into ONE listening catch event (or one waiting
+		// process) at the same time: their single tasks are answered together
+		k := rapid.IntRange(2, 4).Draw(rt, "throwers")
+		tgt := procSpec{Kind: "catcher", Pre: 0, Post: rapid.IntRange(0, 1).Draw(rt, "post"), Target: -1}
+		if rapid.IntRange(0, 2).Draw(rt, "intoWaiting") == 0 {
+			tgt = procSpec{Kind: "waiting", Pre: rapid.IntRange(0, 2).Draw(rt, "pre"), Target: -1}
+		}
+		for i := 0; i < k; i++ {
+			d.Procs = append(d.Procs, procSpec{Kind: "thrower", Pre: 1, Post: rapid.IntRange(0, 1).Draw(rt, "post"), Target: k})
+		}
+		d.Procs = append(d.Procs, tgt)
+		d.Actions = append(d.Actions, action{Kind: "answerAll"})
+		for i := rapid.IntRange(0, 6).Draw(rt, "actions"); i > 0; i-- {
+			d.Actions = append(d.Actions, action{Kind: rapid.SampledFrom([]string{"answer", "answerAll", "wait"}).Draw(rt, "akind"), Arg: rapid.IntRange(0, 5).Draw(rt, "arg")})
+		}
+		return d
+	}
 	nExec := rapid.IntRange(1, 3).Draw(rt, "exec")
 	nWait := rapid.IntRange(0, 2).Draw(rt, "waiting")
 	for i := 0; i < nExec; i++ {
@@ -540,7 +631,7 @@ func draw(rt *rapid.T) descriptor {
 		}
 	}
 	na := rapid.IntRange(0, 8).Draw(rt, "actions")
-	kinds := []string{"answer", "answer", "answer", "wait"}
+	kinds := []string{"answer", "answer", "answer", "wait", "answerAll"}
 	if !rec.Exclude("C18-F1") {
 		kinds = append(kinds, "waitMany", "waitExpire", "rewait")
 	}
@@ -600,6 +691,9 @@ func TestC18ProcessSet(t *testing.T) {
 		}
 		if r.Woken > 0 {
 			cls = append(cls, "wokeCatchEvent")
+		}
+		if r.Bursts > 0 {
+			cls = append(cls, "tasksAnsweredAtTheSameTime")
 		}
 		if trivialProc {
 			cls = append(cls, "processWithoutTask")
